@@ -1584,7 +1584,9 @@ func c08GenTree(seed int64, k int) c08TreeCase {
 			pos := rng.Intn(len(src) + 1)
 			src = src[:pos] + "$" + src[pos:]
 		case "truncation":
-			src = src[:rng.Intn(len(src))]
+			if len(src) > 0 { // a second truncation of the same file may find it already empty
+				src = src[:rng.Intn(len(src))]
+			}
 		case "syntax-error":
 			src = strings.Replace(src, "stage S", "stage (S", 1)
 		case "compile-error":
@@ -1773,6 +1775,13 @@ func c08RunIncTrees(c *Ctx) {
 		var tc c08TreeCase
 		if b, err := os.ReadFile(last); err == nil {
 			json.Unmarshal(b, &tc)
+		}
+		if cls == "crash" && strings.Contains(msg, "panic:") && !strings.Contains(msg, "github.com/martian-lang/martian/") {
+			// the worker died in the harness itself (no frame of the code under test on the stack):
+			// a defect of this machinery, not an observation about martian
+			r.note("include-tree worker died inside the harness after case %d (not judged): %s", tc.Index, head)
+			start = tc.Index + 2
+			continue
 		}
 		r.violate(Violation{Kind: "property", Key: "C08:fatal:" + cls,
 			What:  "compiling an include tree, or rendering (Error()) an error it returned, killed the process: " + cls + " (stack capped at 64 MB, heap watchdog 768 MB, 6 s per case)",
